@@ -5,6 +5,11 @@ import GoguVerif.Kinds.Trees
 import GoguVerif.Kinds.Lists
 import GoguVerif.Kinds.Cache
 import GoguVerif.Kinds.Funcs
+import GoguVerif.Kinds.C11
+import GoguVerif.Kinds.C12
+import GoguVerif.Kinds.C13
+import GoguVerif.Kinds.C14
+import GoguVerif.Kinds.C15
 /-!
 # The compiled driver
 
@@ -30,6 +35,11 @@ def kindOf (name : String) : Option Kind :=
   | "btree" => some Kinds.BTree.kind
   | "trie" => some Kinds.Trie.kind
   | "lru" => some Kinds.Lru.kind
+  | "c11" => some Kinds.C11.kind
+  | "c12" => some Kinds.C12.kind
+  | "c13" => some Kinds.C13.kind
+  | "c14" => some Kinds.C14.kind
+  | "c15" => some Kinds.C15.kind
   | "after" => some Kinds.Funcs.afterKind
   | "before" => some Kinds.Funcs.beforeKind
   | "once" => some Kinds.Funcs.onceKind
